@@ -38,9 +38,13 @@ func bmix(seed, i, j uint32) uint32 {
 func bword(ty string, seed, i, j uint32) uint64 {
 	h := bmix(seed, i, j)
 	switch ty {
-	case "char", "uchar":
+	case "char": // char / short items (extra list properties only): non-negative
+		return uint64(h & 127)
+	case "uchar":
 		return uint64(h & 255)
-	case "short", "ushort":
+	case "short":
+		return uint64(h & 32767)
+	case "ushort":
 		return uint64(h & 65535)
 	case "int", "uint":
 		return uint64(h)
